@@ -4,6 +4,7 @@
    state (hence every reachable state, C01_reachable), every node, every target, both switch settings.
    An accepted children assignment has the links of a sequence of such parent assignments.
    Proofs: Heap/AbsSurgery.v. *)
+From Coq Require Import Sorting.Permutation.
 From BT Require Import Base.Prelude Base.Str Base.Rose Heap.Forest Heap.ForestWF Heap.ForestOps
      Heap.ForestStep Heap.Abs Heap.AbsSurgery.
 
@@ -66,3 +67,22 @@ Example C01_surgery_nonvacuous :
   /\ map ttag (tkids (subtree s' 0)) = [Some 1; Some 3]
   /\ subtree s' 0 = graft 1 (subtree s 2) (cut 2 (subtree s 0)).
 Proof. vm_compute. repeat split; reflexivity. Qed.
+
+(* sort (any permutation of one child list, C01_sort_step) permutes the child subtrees of p and changes
+   no subtree that does not contain p *)
+Theorem C01_sort_is_tree_permutation : forall s p l,
+  WF s -> Permutation l (kids s p) ->
+  let s' := set_kids s p l in
+  subtree s' p = T (Some p) (name s p) [] (map (subtree s) l)
+  /\ (forall x, ~ In (Some p) (tags (subtree s x)) -> subtree s' x = subtree s x).
+Proof. exact reorder_is_tree_permutation. Qed.
+Print Assumptions C01_sort_is_tree_permutation.
+
+(* del node.children: the node becomes a leaf, the detached children keep their subtrees *)
+Theorem C01_del_children_is_tree_cut : forall s p,
+  WF s ->
+  let s' := del_children s p in
+  subtree s' p = T (Some p) (name s p) [] []
+  /\ (forall x, ~ In (Some p) (tags (subtree s x)) -> subtree s' x = subtree s x).
+Proof. exact del_children_is_tree_cut. Qed.
+Print Assumptions C01_del_children_is_tree_cut.
